@@ -75,8 +75,16 @@ type c20Input struct {
 	// sim
 	Race bool `json:"race,omitempty"`
 	// perform (forced performs, in virtual ms) / resave (the second plan)
-	Performs []c20Inc  `json:"performs,omitempty"`
-	Plan2    *c20Canon `json:"plan2,omitempty"`
+	Performs []c20Inc `json:"performs,omitempty"`
+	// perform: after the listed performs, tail_blocks further blocks each carrying a report with tail_n results
+	TailBlocks int `json:"tail_blocks,omitempty"`
+	TailN      int `json:"tail_n,omitempty"`
+	// collector (stress of the contract-event collector): nodes × rounds CheckID calls over upkeeps × blocks, reads Data() calls
+	Nodes   int       `json:"nodes,omitempty"`
+	NUpkeep int       `json:"n_upkeep,omitempty"`
+	NBlock  int       `json:"n_block,omitempty"`
+	Reads   int       `json:"reads,omitempty"`
+	Plan2   *c20Canon `json:"plan2,omitempty"`
 	// transmit (concurrent stress of the transmit loader)
 	Rounds    int `json:"rounds,omitempty"`
 	K         int `json:"k,omitempty"`
@@ -910,6 +918,8 @@ func c20Run(t *testing.T, in c20Input, simExe string) any {
 		return c20RunPerform(t, in)
 	case "resave":
 		return c20RunResave(in)
+	case "collector":
+		return c20RunCollector(in, simExe, in.Race)
 	case "transmit":
 		return c20RunTransmit(in, simExe, in.Race)
 	case "sim":
@@ -1125,6 +1135,15 @@ func TestC20(t *testing.T) {
 	}
 	for _, in := range stress {
 		sims = append(sims, simCase{in, self})
+	}
+	{
+		// the contract-event collector read by the summary while the nodes still record checks
+		col := c20Input{Kind: "collector", Nodes: 8, NUpkeep: 20, NBlock: 30, Rounds: tierN(20000, 60000), Reads: tierN(2000, 6000)}
+		sims = append(sims, simCase{col, self})
+		if raceExe != "" {
+			col.Race, col.Rounds, col.Reads = true, 3000, 300
+			sims = append(sims, simCase{col, raceExe})
+		}
 	}
 	if raceExe != "" {
 		// failing verdicts with several incomplete trackers, under the race detector
